@@ -24,6 +24,7 @@ type SpecEnv struct {
 	lp        *Loop
 	locals    bool // identifiers may denote locals of fx.fn (loop invariants, call-site assertions)
 	inOld     bool
+	localSt   *State // inside old(): the state that supplies the values of locals
 	clause    string
 }
 
@@ -218,6 +219,17 @@ func (e *SpecEnv) ident(name string) Val {
 		}
 		if a := e.localAlloc(name); a != nil {
 			st := e.st
+			if e.inOld && e.localSt != nil {
+				isParam := false
+				for _, p := range e.fn.Params {
+					if p.Name() == name {
+						isParam = true
+					}
+				}
+				if !isParam {
+					st = e.localSt
+				}
+			}
 			if !a.Heap {
 				if v, ok := st.Allocs[a]; ok {
 					return v
@@ -739,10 +751,13 @@ func (e *SpecEnv) call(x *SExpr) Val {
 			if e.old == nil {
 				e.fail("old() not available here")
 			}
-			saved, savedIn := e.st, e.inOld
+			saved, savedIn, savedLocal := e.st, e.inOld, e.localSt
+			if !e.inOld {
+				e.localSt = e.st // locals keep their current values inside old(); only memory is old
+			}
 			e.st, e.inOld = e.old, true
 			v := e.eval(args[0])
-			e.st, e.inOld = saved, savedIn
+			e.st, e.inOld, e.localSt = saved, savedIn, savedLocal
 			return v
 		case "atloop":
 			if e.loopEntry == nil {
@@ -956,10 +971,17 @@ func (e *SpecEnv) evalLoc(cl Clause) Loc {
 	case "select":
 		base := e.eval(x.Args[0])
 		var mp *MetaPtr
+		var guard *Term
 		if base.Ptr != nil {
 			mp = base.Ptr
 		} else if pt, ok := base.T.Underlying().(*types.Pointer); ok {
 			mp = e.ex.objPtr(pt.Elem(), base.C[0])
+			guard = Neq(base.C[0], IntC(0))
+		} else if _, ok := base.T.Underlying().(*types.Struct); ok && x.Args[0].Kind == "select" {
+			// field of an embedded struct reached through a pointer: p.a.b
+			inner := e.evalLoc(Clause{Expr: x.Args[0], Src: cl.Src, Line: cl.Line})
+			mp = inner.Ptr
+			guard = inner.Guard
 		} else {
 			e.fail("modifies target %s: base is not a pointer", cl.Src)
 		}
@@ -970,12 +992,12 @@ func (e *SpecEnv) evalLoc(cl Clause) Loc {
 		for _, i := range path {
 			mp = mp.extend(Step{Field: i})
 		}
-		return Loc{Kind: "ptr", Ptr: mp}
+		return Loc{Kind: "ptr", Ptr: mp, Guard: guard}
 	case "unary":
 		if x.Op == "*" {
 			base := e.eval(x.Args[0])
 			pt := base.T.Underlying().(*types.Pointer)
-			return Loc{Kind: "ptr", Ptr: e.ex.objPtr(pt.Elem(), base.C[0])}
+			return Loc{Kind: "ptr", Ptr: e.ex.objPtr(pt.Elem(), base.C[0]), Guard: Neq(base.C[0], IntC(0))}
 		}
 	case "call":
 		if x.Args[0].Kind == "ident" && (x.Args[0].Name == "elems" || x.Args[0].Name == "spare") {
